@@ -170,6 +170,27 @@ func genEdit(r *rand.Rand, s *scriptWriter, ids []string, length int, rich float
 	r1, r2 := randList(r, o), randList(r, o)
 	s.reset(map[string]*sbom.NodeList{"r1": r1, "r2": r2, "r3": randList(r, o), "r4": emptyNL()})
 	all := append(append([]string{}, ids...), "nope")
+	if len(ids) >= 12 && r.Intn(4) == 0 {
+		// three parallel edges of one source and type: a wide one, a narrow one that introduces a new target, a wide one
+		// that repeats it (normalisation must not depend on how many targets an edge has)
+		wide := &sbom.NodeList{}
+		for _, id := range ids[:12] {
+			wide.Nodes = append(wide.Nodes, randNode(r, id, rich))
+		}
+		t := pick(r, edgeTypes2)
+		wide.Edges = []*sbom.Edge{
+			{Type: t, From: ids[0], To: append([]string{}, ids[1:10]...)},
+			{Type: t, From: ids[0], To: []string{ids[10]}},
+			{Type: t, From: ids[0], To: append(append([]string{}, ids[1:9]...), ids[10], ids[11])},
+		}
+		wide.RootElements = []string{ids[0]}
+		r1 = wide
+		s.sid-- // replace the registers of this script
+		s.reset(map[string]*sbom.NodeList{"r1": r1, "r2": r2, "r3": randList(r, o), "r4": emptyNL()})
+		s.op("Remove", "a", "r1", "ids", []string{ids[11]})
+		s.op("Descendants", "a", "r1", "id", ids[0], "depth", 2, "out", "r4")
+		s.op("Union", "a", "r1", "b", "r2", "out", "r4")
+	}
 	if len(r1.Nodes) > 0 && len(r2.RootElements) > 0 && r.Intn(3) == 0 {
 		// graft one list under a node of the other, then edit the grafted list: the two must stay independent
 		s.op("RelateList", "a", "r1", "b", "r2", "at", r1.Nodes[r.Intn(len(r1.Nodes))].Id, "t", int(pick(r, edgeTypes2)))
